@@ -134,6 +134,10 @@ func Run(out *cq.Out, seed uint64, tier, backend string, open Opener, reopen fun
 						out.Count("duplicate_key_in_batch", 1)
 					}
 					val := rng.Bytes(1 + rng.Intn(2))
+					if rng.Intn(8) == 0 {
+						val = []byte{} // a key written with an empty value is a written key
+						out.Count("empty_values", 1)
+					}
 					pool = append(pool, key)
 					muts = append(muts, storage.NewMutation(tt, key, val))
 					or[tt][string(key)] = val
